@@ -148,6 +148,12 @@ func (c *config) rewrite(node ast.Node) (ast.Node, error) {
 				continue
 			}
 
+			if len(f.Names) > 1 {
+				// These fields share a single tag, so they can't be given different indexes
+				recordError(f, fmt.Errorf("fields %s and %s are declared together so cannot be given separate plenc tags", f.Names[0].Name, f.Names[1].Name))
+				continue
+			}
+
 			// No plenc tag. Either we explicitly exclude it `plenc:"-"`, or we give it a number `plenc:"12"`
 			tag := structtag.Tag{Key: "plenc"}
 			if c.isExcluded(tags) {
